@@ -313,6 +313,10 @@ func recogniserConflicts(c *Ctx, p *Prog, db *dbModel, rule string) {
 				if len(f) > len(seq) && strings.HasPrefix(f, seq) {
 					conf += fmt.Sprintf("key %q is a proper prefix of the %s; ", seq, what)
 				}
+				if seq == f {
+					// the key matcher runs first: the report would never be seen as a report
+					c.Fail(rule, e.Name+":focus-report-is-a-key", p.pos(e.Pos), fmt.Sprintf("the key table of %s assigns %q, which is the %s, to a key", e.Name, f, what))
+				}
 			}
 		}
 		if conf != "" {
